@@ -229,6 +229,23 @@ func runGrammar(c *ShardCtx, g *peg.Grammar, f *family) {
 							}
 						}
 					}
+					if c.Res.warmSeen%20 == 13 && !obs.Diverged && len(obs.Pool) == 0 {
+						// ... and after a call with OTHER options that is cut short: the same input parsed
+						// with a tiny budget, Recover(false), AllowInvalidUTF8, Memoize and every option given
+						// twice (the budget panic escapes and is caught here); nothing of that call - an
+						// option, a flag toggled half way, a table - may reach the next one
+						pre := rtapi.RunOpts{MaxExpr: uint64(3 + c.Res.warmSeen%7), NoRecover: true, AllowInvalid: !o.AllowInvalid, Memoize: b.Flags.HasMemo() && !o.Memoize, Doubled: true, Filename: o.Filename}
+						first := b.Run(in, &pre, script)
+						if !first.Diverged {
+							o3 := o
+							again := b.RunWarm(in, &o3, script)
+							c.Res.Counters["second_call_runs"]++
+							if k1, k2 := warmKey(obs), warmKey(again); k1 != k2 && !again.Diverged {
+								c.Report(Violation{Desc: fmt.Sprintf("a Parse call made after a call with other options (%s) returns something else: %s (alone: %s)", optsString(&pre), k2, k1), Grammar: text, Gen: gen.String(), Input: string(in),
+									InputHex: hexOf(in), Opts: optsString(&o) + " " + scriptString(script) + " (after Parse of the same input with " + optsString(&pre) + ")"}, "")
+							}
+						}
+					}
 					if c.Res.warmSeen%5 == 0 && !obs.Diverged && len(obs.Pool) == 0 {
 						if c.Res.warmSeen%10 == 0 && len(f.inputs) > 1 {
 							// ... and a call on ANOTHER input with the same option VALUES (a caller keeping
